@@ -188,7 +188,7 @@ def _write_struct(sqw_io: LowLevelSqw, objects: _AnyObjectList) -> None:
 def _write_single_struct(sqw_io: LowLevelSqw, struct: ir.Struct) -> None:
     sqw_io.write_u32(len(struct.field_names))
     for name in struct.field_names:
-        sqw_io.write_u32(len(name))
+        sqw_io.write_u32(len(name.encode('utf-8')))
     for name in struct.field_names:
         sqw_io.write_chars(name)
     write_object_array(sqw_io, struct.field_values)
